@@ -1,2 +1,3 @@
+@property
 def spec(self):
     return tuple(self.assignments.shape)
